@@ -49,7 +49,9 @@ func genStreamMsg(L, W int, i int) gStreamMsg {
 	if !reduced {
 		m.method = []string{"OPTIONS", "INFO"}[rt.Choice("method", 2)]
 	}
-	switch rt.Choice("linelen", 3) {
+	switch rt.Choice("linelen", 4) {
+	case 3: // longer than two windows: three or more chunks
+		m.long = rt.Str("xlong", "alnum", 2*W+1, 2*W+L)
 	case 0:
 		m.long = rt.Str("short", "alnum", 1, L)
 	case 1: // around the window size
